@@ -925,6 +925,8 @@ var c16Witnesses = [][]string{
 	{"reset", "new 42", "vis 42 0 0", "del 536865657431", "new 43", "del 536865657431"},
 	{"reset", "new 41", "new 42", "new 43", "defn 0 41", "defn 1 43", "defn 2 536865657431", "move 43 41", "move 536865657431 43", "move 41 536865657431", "del 42", "save"},
 	{"reset", "new 576f726b626f6f6b", "defn 0 576f726b626f6f6b", "defn 0 -", "defn 1 6e6f73756368", "new 61", "defn 2 41", "defn 2 61", "defn 2 -", "del 61", "defn 2 61"},
+	// the active last sheet is deleted, then a sheet is created: bookViews.activeTab must stay inside the list
+	{"reset", "new 42", "act 1", "del 42", "new 43", "act 1", "del 43", "del 536865657431", "new 44", "new 45", "act 2", "del 45", "del 44"},
 	{"reset", "ren 536865657431 7368656574310a", "ren 536865657431 736865657431", "ren 736865657431 534845455431", "new 736865657431"},
 }
 
